@@ -109,7 +109,11 @@ func selectPrestates(shape hshape, all []prestate, n int, r *core.Rng) []prestat
 		var parts []string
 		recorded := false
 		for _, t := range shape.Tasks {
-			snap := snapshot(&t, p.st.Files)
+			files := map[string]string{spokfileVersionKey: spokVer(shape)}
+			for k, v := range p.st.Files {
+				files[k] = v
+			}
+			snap := snapshot(&t, files)
 			last := p.st.Model[t.Name]
 			c := "none"
 			switch {
